@@ -416,4 +416,22 @@ def s8(ctx):
                               'DjangoCache.%s(%s=%s) but FanoutCache.%s(%s=%s)' % (
                                   name, p, ast.unparse(df) if df is not None else '<required>', name, p,
                                   ast.unparse(dg) if dg is not None else '<required>'), f.loc()))
+    # the memoize family: same defaults for the parameters they share with Cache.memoize
+    base = cc.methods.get('memoize')
+    fam = []
+    for q in ('djangocache.DjangoCache.memoize', 'recipes.memoize_stampede', 'persistent.Index.memoize'):
+        if q in ctx.prog.funcs:
+            fam.append(ctx.prog.funcs[q])
+    for g in fam:
+        if base is None or g is base:
+            continue
+        for p in g.params:
+            if p not in base.params or p in ('expire', 'timeout'):
+                continue
+            df, dg = g.defaults.get(p), base.defaults.get(p)
+            same = (df is None and dg is None) or (df is not None and dg is not None and ast.dump(df) == ast.dump(dg))
+            obs.append(Ob('S8', '%s/%s' % (g.qual, p), same,
+                          '%s(%s=%s) but Cache.memoize(%s=%s): the decorators document the same defaults' % (
+                              g.qual, p, ast.unparse(df) if df is not None else '<required>', p,
+                              ast.unparse(dg) if dg is not None else '<required>'), g.loc()))
     return obs
